@@ -265,6 +265,8 @@ func runC01(r *rt.Run) {
 		}
 		fp := ident.pts(probes)
 		shapes := bigRingShapes(nil)
+		st, _ := slantPairs()
+		shapes = append(shapes, st...)
 		r.Bounds["big_rings"] = len(shapes)
 		r.ParFor(len(shapes), func(i int, w *rt.Worker) {
 			w.Trans += int64(len(shapes[i].E.Skeleton()))
